@@ -178,6 +178,10 @@ var c01Rules = []c01Rule{
 		gen: c01RuleLongVars, hit: `var v0=f\(0\),v1=f\(1\),v2=f\(2\)`},
 	{id: "rename-many", doc: "vars.go renamer: short names are handed out in frequency order and skip reserved words (`in` is the 168th, `do` the 281st, `if` the 1140th name of a scope)", kind: 'P',
 		gen: c01RuleManyBindings},
+	{id: "yield-undefined", doc: "js.go YieldExpr: yield undefined => yield (not when undefined is a local, K-C01-15 when it is captured from an enclosing function)", kind: 'P',
+		t: []string{"function*t(){yield undefined}f([...t()])", "function*t(undefined){yield undefined}f([...t(1)])", "function*t(){yield void 0;yield(undefined);yield}f([...t()])"}, hit: `function\*t\(\)\{yield\}`},
+	{id: "yield-undefined-captured", doc: "js.go YieldExpr: undefined captured from an enclosing function (K-C01-15)", kind: 'P',
+		t: []string{"function t(undefined){function*u(){yield undefined}return[...u()]}f(t(1))", "function t(undefined){return function*(){yield undefined}}f([...t(1)()])"}, known: "S17-yield-shadow-undefined"},
 	{id: "loop-rewrite", doc: "js.go while(a) => for(;a;), do-while, for body", kind: 'P', t: []string{"while(a<3)a++;f(a)", "do a++;while(a<3);f(a)", "for(;;){f(1);break}", "while(true){f(1);break}", "while(1)break;f(1)", "while(0)f(1);g(2)", "do{f(1)}while(0);g(2)", "do f(1);while(a>b&&0)", "for(;true;)break", "for(;!0;){f(1);break}", "while(a){a=0}", "for(;a;)a=0;",
 		"do;while(f(1)<0)", "while(f(1),0);", "for(var i=0;i<2;i++){}f(i)", "for(var i=0;i<2;i++);f(i)", "for(var i=0;i<2;i++){f(i)}", "for(var i=0;i<2;i++){f(i);g(i)}", "for(var i=0;i<2;i++)if(a)f(i)", "while(a<3){a++;if(b)break}", "do{if(a)break;a=1}while(1)", "do var z=1;while(0);f(z)", "if(a)do f(1);while(0);else g(2)", "if(a)while(0);else g(2)"}, hit: `for\([^;]*;a<3;\)a\+\+`},
 	{id: "dead-var-after-flow", doc: "stmtlist.go optimizeStmtList: statements after return/throw/break/continue are kept (a hoisted var declaration still binds)", kind: 'P',
